@@ -555,8 +555,10 @@ def k2_glob(d: int, a: int, b: int, w: int, q: int, ab: int, g: int) -> bool:
     junit = bool(c.get('junit'))
     with ob.untraced():  # every selector is concrete by now
         specs, tree, root = G.scenario(w, G.line(d, a, b, w, q, bool(ab)))
-        # seeded oracle error: the oracle does not know the character class as a pattern construct
-        order = L.expected_run(tree, specs, root, wild=('*', '?') if c.get('oracle_bug') else ('*', '?', '['))
+        if c.get('oracle_bug'):
+            # seeded oracle error: the oracle takes a quoted name for a pattern
+            specs = G.scenario(w, G.line(d, a, b, w, 0, bool(ab)))[0]
+        order = L.expected_run(tree, specs, root)
         obs = L.run_main_program_on_suite(tree, root, junit, G.kind_of, glob_rot=g // 2, glob_rev=(g % 2 == 1))
         ok = L.hierarchy_ok(obs, order, root, junit, G.kind_of)
     return ob.post(ok)
@@ -597,9 +599,11 @@ def _glob_obligations(tier: str) -> List[Ob]:
     abs_all = 'relative and absolute'
     T = 300
     if tier == 'quick':
-        obs.append(_glob_ob('combinations', T,
-                            'every combination of constructs: %s; unquoted, relative, %s; both orders of glob matches'
-                            % (GLOB_LINE_TEXT, G.WHERE_TEXT[0]), ws=[0], qs=[0], abs=[0]))
+        for ws in ([0, 1], [2, 3]):
+            obs.append(_glob_ob('combinations:%d%d' % tuple(ws), 2 * T,
+                                'every combination of constructs: %s; unquoted, relative, %s; both orders of glob matches'
+                                % (GLOB_LINE_TEXT, 'standing in each of: ' + '; '.join(G.WHERE_TEXT[w] for w in ws)),
+                                ws=ws, qs=[0], abs=[0]))
         obs.append(_glob_ob('one-construct', T,
                             '%s with a wildcard construct in at most one of the three positions; %s; %s; %s; both orders '
                             'of glob matches' % (GLOB_LINE_TEXT, where_all, quote_all, abs_all), pats=_one_construct()))
@@ -619,8 +623,8 @@ def _glob_obligations(tier: str) -> List[Ob]:
                                         % (GLOB_LINE_TEXT, quote_all, 'absolute' if ab else 'relative', G.WHERE_TEXT[w]),
                                         junit=junit, ws=[w], abs=[ab]))
     obs.append(_glob_ob('seeded-oracle-error', T,
-                        'seeded oracle error: the oracle takes a name whose only construct is a character class for a plain '
-                        'name', oracle_bug=True, ws=[0], qs=[0], abs=[0], ng=1, pats=_one_construct()))
+                        'seeded oracle error: the oracle takes a quoted name for a pattern', oracle_bug=True,
+                        ws=[0], qs=[1], abs=[0], ng=1, pats=_one_construct()))
     return obs
 
 
